@@ -34,7 +34,7 @@ class CheckC19(core.Check):
     def plan(self):
         rnd = random.Random(self.seed * 275604541 + 19)
         descs = []
-        reps = 1 if self.tier == "quick" else 30
+        reps = 10 if self.tier == "quick" else 400
         for ci in CIPHERS:
             for be in BACKENDS:
                 for path in PATHS:
